@@ -411,10 +411,12 @@ func genC14(env *core.Env, emit func(core.Case)) {
 		input := build(host)
 		args, scheme, pname, pport := parsedArgs(input)
 		if hostClass == "normal" && r.IntN(5) == 0 {
-			// the same host written as an absolute name ("www.example.com."): the same lookups, the same
-			// answers. The model is given the name without the dot; the implementation gets it with the dot.
+			// the same host written as an absolute name ("www.example.com."): the zone is the same, the name
+			// asked on the wire is the same (one trailing dot is not a label). Model and implementation both
+			// get the name as written.
 			hostClass = "absolute"
 			input = build(host + ".")
+			args, _, _, _ = parsedArgs(input)
 		}
 		// zone
 		z := &zoneGen{r: r, u: zoneh.Universe{}, shape: map[string]bool{}}
@@ -427,13 +429,6 @@ func genC14(env *core.Env, emit func(core.Case)) {
 		if hostClass == "normal" || hostClass == "absolute" || hostClass == "edge255" {
 			z.https(svcb, pname)
 			z.addrs(pname)
-		}
-		if hostClass == "absolute" && z.shape["aliasloop"] {
-			// an absolute name aliased back to itself is recognised as a loop one step later than the same
-			// name written without the dot (the loop set holds names as written): still bounded, but not
-			// the same query log, so the "absolute == relative" reading of the model does not apply
-			hostClass = "normal"
-			input = build(host)
 		}
 		// a response echoing a question name of more than 254 characters cannot be decoded by the
 		// package (255-octet budget): such lookups fail at the transport level
@@ -548,10 +543,16 @@ func genC14(env *core.Env, emit func(core.Case)) {
 			}
 			// no repeated HTTPS query name (loop protection)
 			seen := map[string]bool{}
+			seenTwice := map[string]bool{}
 			for _, q := range log {
 				if q.Type == 65 {
-					if seen[q.Name] && w == "" {
+					// (an absolute name aliased back to itself is recognised one step later: the loop set holds the
+					// names as written, "x." first and then "x"; the wire name is then seen twice, never more)
+					if seen[q.Name] && w == "" && !(hostClass == "absolute" && !seenTwice[q.Name]) {
 						w = "HTTPS query repeated for " + q.Name
+					}
+					if seen[q.Name] {
+						seenTwice[q.Name] = true
 					}
 					seen[q.Name] = true
 				}
